@@ -206,7 +206,7 @@ class OLSModel(LikelihoodModel):
             sigmasq = SSE / n
         else:
             sigmasq = nuisance['sigma']
-        return np.dot(X, r) / sigmasq
+        return np.dot(X.T, r) / sigmasq
 
     def information(self, beta, nuisance=None):
         ''' Returns the information matrix at (beta, Y, nuisance).
